@@ -41,10 +41,17 @@ MapNestPool == { Map(<<>>), Map(<< <<KA, L(<<I(1)>>)>> >>), Map(<< <<KA, L(<<I(1
                  Map(<< <<KA, L(<<I(1)>>)>>, <<KB, L(<<>>)>> >>), Map(<< <<KB, L(<<>>)>>, <<KA, L(<<I(1)>>)>> >>) }
 MapIntKeyPool == { Map(<<>>), Map(<< <<I(1), KA>> >>), Map(<< <<I(2), KA>> >>), Map(<< <<I(1), KB>> >>),
                    Map(<< <<I(1), KA>>, <<I(2), KB>> >>), Map(<< <<I(2), KB>>, <<I(1), KA>> >>) }
+\* maps whose values are null: a key that is missing is not a key that holds null ({"a": null} # {"b": null})
+KC == S(<<99>>)
+MapNullPool == { Map(<<>>), Map(<< <<KA, Null>> >>), Map(<< <<KB, Null>> >>), Map(<< <<KA, Null>>, <<KB, Null>> >>), Map(<< <<KB, Null>>, <<KA, Null>> >>),
+                 Map(<< <<KB, Null>>, <<KC, Null>> >>), Map(<< <<KC, Null>> >>) }
+ListNullPool == { L(<<>>), L(<<Null>>), L(<<Null, Null>>) }
+ListMapNullPool == { L(<<>>), L(<<Map(<< <<KA, Null>> >>)>>), L(<<Map(<< <<KB, Null>> >>)>>), L(<<Map(<<>>)>>), L(<<Map(<< <<KA, Null>> >>), Map(<< <<KB, Null>> >>)>>) }
 Pool(f) == CASE f = "int" -> IntPool [] f = "uint" -> UintPool [] f = "double" -> DblPool [] f = "string" -> StrPool
              [] f = "bytes" -> BytesPool [] f = "bool" -> BoolPool [] f = "timestamp" -> TsPool [] f = "duration" -> DurPool
              [] f = "list_int" -> ListIntPool [] f = "list_nest" -> ListNestPool [] f = "list_str" -> ListStrPool
              [] f = "map" -> MapPool [] f = "map_nest" -> MapNestPool [] f = "map_intkey" -> MapIntKeyPool
+             [] f = "map_null" -> MapNullPool [] f = "list_null" -> ListNullPool [] f = "list_mapnull" -> ListMapNullPool
 IsOrdered(f) == f \in {"int", "uint", "double", "string", "bytes", "bool", "timestamp", "duration"}
 Ops(f) == IF IsOrdered(f) THEN RelOps ELSE {"==", "!="}
 Expected(f, x, y) == [o \in Ops(f) |-> Rel(o, x, y).v]
